@@ -115,7 +115,7 @@ def tup(x):
 
 
 ALL_TASKS = ["beat", "onset", "tempo", "key", "alignment", "pattern", "melody", "multipitch", "segment", "chord",
-             "transcription", "transcription_velocity"]
+             "transcription", "transcription_velocity", "hierarchy"]
 
 
 def tasks():
